@@ -8,6 +8,7 @@
 import Fca.Lemmas.PosetStep2
 import Fca.Lemmas.PosetInit3
 import Fca.Lemmas.PosetInitTerm
+import Fca.Gen.EquivPoset
 namespace Fca.C09
 open Fca Fca.Poset Fca.Poset.Fresh
 
@@ -219,5 +220,72 @@ example : CorrectCD subLeq [0, 1, 2, 3, 7] [(0, []), (1, [0]), (2, [0]), (3, [1,
   refine ⟨hcd, ?_, by decide +kernel⟩
   exact inv_init_children_dict_total (ord := id) ⟨hpo, fun _ => List.Perm.refl _⟩ _ _ (by decide)
     (by decide) hcd (by decide) _ (Nat.le_refl _)
+
+end Fca.C09
+
+/-! ### the uncached queries, for the definitions GENERATED from the Python source
+
+  `Fca.Gen.Lists.poset*` (`Fca/Gen/GeneratedPoset.lean`) is what `harness/py2lean.py` makes of the current source of
+  `POSet.leq_elements / descendants / ancestors / children / parents / bottoms / tops` (and the `_nocache` bodies and
+  `__len__` they call) for a poset built with `use_cache=False`; `Fca/Gen/EquivPoset.lean` proves that on a cache-less
+  state the model answers exactly what they compute.  Hence the history-independent answer `Fresh.answer` is what the
+  source-derived definitions return, on every state the invariant holds for. -/
+namespace Fca.C09
+open Fca Fca.Poset Fca.Poset.Fresh
+
+section
+variable {α : Type} [DecidableEq α] {leq : α → α → Bool} {ord : List Nat → List Nat} {U : α → Prop}
+
+/-- `leq_elements(i, j)` -/
+theorem gen_leq_answer (henv : Env leq ord U) (s : St α) (hinv : Inv leq s) (hU : ∀ a ∈ s.elems, U a)
+    (hc : s.useCache = false) (i j : Nat) (hok : opOk s.elems s.useCache (.leq i j) = true) :
+    outOf .bool (Gen.Lists.posetLeq ord ⟨s.elems, leq⟩ i j) = answer leq s.elems (.leq i j) := by
+  have h := out_step henv s (.leq i j) hinv hU hok trivial
+  simp only [step, Gen.Lists.posetLeq_eq_model leq ord s hc i j] at h
+  exact h
+
+/-- `descendants(i)` / `ancestors(i)` (as sets: compared after sorting) -/
+theorem gen_closed_answer (henv : Env leq ord U) (s : St α) (hinv : Inv leq s) (hU : ∀ a ∈ s.elems, U a)
+    (hc : s.useCache = false) (i : Nat) (hok : decide (i < s.elems.length) = true) :
+    outOf (fun l => .set (sortSet l)) (Gen.Lists.posetDescendants ord ⟨s.elems, leq⟩ i)
+        = answer leq s.elems (.closed .desc i) ∧
+    outOf (fun l => .set (sortSet l)) (Gen.Lists.posetAncestors ord ⟨s.elems, leq⟩ i)
+        = answer leq s.elems (.closed .anc i) := by
+  have h1 := out_step henv s (.closed .desc i) hinv hU hok trivial
+  have h2 := out_step henv s (.closed .anc i) hinv hU hok trivial
+  simp only [step, Gen.Lists.posetDescendants_eq_model leq ord s hc i] at h1
+  simp only [step, Gen.Lists.posetAncestors_eq_model leq ord s hc i] at h2
+  exact ⟨h1, h2⟩
+
+/-- `children(i)` / `parents(i)`, whatever order `ord` Python walks the sets in -/
+theorem gen_direct_answer (henv : Env leq ord U) (s : St α) (hinv : Inv leq s) (hU : ∀ a ∈ s.elems, U a)
+    (hc : s.useCache = false) (i : Nat) (hok : decide (i < s.elems.length) = true) :
+    outOf (fun l => .set (sortSet l)) (Gen.Lists.posetChildren ord ⟨s.elems, leq⟩ i)
+        = answer leq s.elems (.direct .desc i) ∧
+    outOf (fun l => .set (sortSet l)) (Gen.Lists.posetParents ord ⟨s.elems, leq⟩ i)
+        = answer leq s.elems (.direct .anc i) := by
+  have h1 := out_step henv s (.direct .desc i) hinv hU hok trivial
+  have h2 := out_step henv s (.direct .anc i) hinv hU hok trivial
+  simp only [step, Gen.Lists.posetChildren_eq_model leq ord s hc i] at h1
+  simp only [step, Gen.Lists.posetParents_eq_model leq ord s hc i] at h2
+  exact ⟨h1, h2⟩
+
+/-- `bottoms` / `tops` -/
+theorem gen_extremes_answer (henv : Env leq ord U) (s : St α) (hinv : Inv leq s) (hU : ∀ a ∈ s.elems, U a)
+    (hc : s.useCache = false) :
+    outOf .list (Gen.Lists.posetBottoms ord ⟨s.elems, leq⟩) = answer leq s.elems (.extremes .desc) ∧
+    outOf .list (Gen.Lists.posetTops ord ⟨s.elems, leq⟩) = answer leq s.elems (.extremes .anc) := by
+  have h1 := out_step henv s (.extremes .desc) hinv hU rfl trivial
+  have h2 := out_step henv s (.extremes .anc) hinv hU rfl trivial
+  simp only [step, Gen.Lists.posetBottoms_eq_model leq ord s hc] at h1
+  simp only [step, Gen.Lists.posetTops_eq_model leq ord s hc] at h2
+  exact ⟨h1, h2⟩
+
+end
+
+/-- the generated definitions compute (divisibility order on `[1, 2, 3, 6]`): -/
+example : Gen.Lists.posetChildren id ⟨[1, 2, 3, 6], fun a b => decide (a ∣ b)⟩ 3 = .ok [1, 2]
+    ∧ Gen.Lists.posetTops id ⟨[1, 2, 3, 6], fun a b => decide (a ∣ b)⟩ = .ok [3] := by
+  exact ⟨by rfl, by rfl⟩
 
 end Fca.C09
